@@ -236,15 +236,15 @@ func (r *funcVals) surface() {
 		case *types.Pointer:
 			add(x.Elem(), via)
 		case *types.Slice:
-			r.openElem[r.id(x.Elem())] = via
+			r.markOpen(x.Elem(), via)
 			add(x.Elem(), via)
 		case *types.Array:
-			r.openElem[r.id(x.Elem())] = via
+			r.markOpen(x.Elem(), via)
 			add(x.Elem(), via)
 		case *types.Chan:
 			add(x.Elem(), via)
 		case *types.Map:
-			r.openElem[r.id(x.Elem())] = via
+			r.markOpen(x.Elem(), via)
 			add(x.Key(), via)
 			add(x.Elem(), via)
 		case *types.Struct:
@@ -266,7 +266,9 @@ func (r *funcVals) surface() {
 			}
 		}
 	}
-	for _, p := range r.prog.AllPackages() {
+	pkgs := append([]*ssa.Package(nil), r.prog.AllPackages()...)
+	sort.Slice(pkgs, func(i, j int) bool { return pkgs[i].Pkg.Path() < pkgs[j].Pkg.Path() }) // the first reason found is the one reported
+	for _, p := range pkgs {
 		if p.Pkg == nil || !(p.Pkg.Path() == mod || strings.HasPrefix(p.Pkg.Path(), mod+"/")) {
 			continue
 		}
@@ -281,6 +283,12 @@ func (r *funcVals) surface() {
 				add(o.Type(), p.Pkg.Name()+"."+n)
 			}
 		}
+	}
+}
+
+func (r *funcVals) markOpen(elem types.Type, via string) {
+	if _, ok := r.openElem[r.id(elem)]; !ok {
+		r.openElem[r.id(elem)] = via
 	}
 }
 
